@@ -142,13 +142,20 @@ def check_ops(acc, m0, tag, bad, ops, perms=(), taut_perms=False):
     nums = list(m0)
     perms = list(perms) + [[2 * n + 5 for n in nums]]
     eq_ops = [o for o in EQUIVARIANT if o in results] + (['canonicalize_taut'] if taut_perms and 'canonicalize_taut' in results else [])
-    for p in perms:
+    for pi, p in enumerate(perms):
         mp = dict(zip(nums, p))
-        for name in eq_ops:
+        for name, storage in [(n_, 'kept') for n_ in eq_ops] + ([(n_, 'reversed') for n_ in eq_ops] if pi < 2 else []):
             acc.states += 1
             acc.transitions += 1
             m = m0.copy()
             m.remap(mp)
+            if storage == 'reversed':
+                # remap() keeps the storage order of atoms and neighbours; a molecule that was BUILT under the other numbering has another one
+                try:
+                    m = m.substructure(list(m)[::-1])
+                except Exception as e:
+                    bad('substructure raised %s' % type(e).__name__, op=name)
+                    continue
             try:
                 OPS[name](m)
             except Exception as e:
@@ -161,8 +168,21 @@ def check_ops(acc, m0, tag, bad, ops, perms=(), taut_perms=False):
                 exp = (tuple(sorted(t[1:] for t in exp[0])), len(exp[1]))
                 got = (tuple(sorted(t[1:] for t in got[0])), len(got[1]))
             if got != exp:
-                bad('%s result depends on atom numbering' % name, op=name, numbering=list(p), got=str(m))
+                bad('%s result depends on atom numbering%s' % (name, ' / storage order' if storage == 'reversed' else ''), op=name, numbering=list(p), got=str(m))
                 break
+
+
+_S2Z = {}
+
+
+def _rederive_h(m, n):
+    from chython.periodictable import Element
+    from ..oracle import valence
+    if not _S2Z:
+        _S2Z.update({c.__name__: c.atomic_number.fget(None) for c in Element.__subclasses__()})
+    a = m.atom(n)
+    nb = [(b.order, m.atom(k).atomic_number) for k, b in m._bonds[n].items() if b.order != 8]
+    return valence.rederive(a, a.charge, a.is_radical, nb, _S2Z)
 
 
 def mkbad(acc, tag):
@@ -310,6 +330,19 @@ def run_corpus(shard):
                 seen.add(st)
                 if t.check_valence():
                     mkbad(acc, s)('a tautomer has a valence error', got=st)
+                    break
+                hs = [a_.implicit_hydrogens for _, a_ in t.atoms()]
+                if any(h is None or h < 0 for h in hs):
+                    mkbad(acc, s)('a tautomer carries an impossible hydrogen count on an atom', got=st, hydrogens=hs)
+                    break
+                tk = t.copy()
+                try:
+                    tk.kekule()
+                    stale = [n_ for n_, a_ in tk.atoms() if a_.implicit_hydrogens != _rederive_h(tk, n_)]
+                except Exception:
+                    stale = []
+                if stale:
+                    mkbad(acc, s)('hydrogen count of a tautomer atom differs from the count its bonds imply', got=st, atoms=stale[:4])
                     break
                 if j > 60:
                     break
